@@ -13,6 +13,7 @@ import Mingus.Props.C08
 import Mingus.Props.C09
 import Mingus.Props.C10
 import Mingus.Props.C10Hz
+import Mingus.Props.C12
 import Mingus.Tie.C01
 import Mingus.Tie.C02
 import Mingus.Tie.C03
@@ -23,3 +24,4 @@ import Mingus.Tie.C07
 import Mingus.Tie.C08
 import Mingus.Tie.C09
 import Mingus.Tie.C10
+import Mingus.Tie.C12
